@@ -10,7 +10,7 @@ import numpy as np
 
 from mc.common import Result, pmap
 from mc import tree
-from mc.env import box, BOXES
+from mc.env import box, BOXES, LATTICE_BOXES, ENDS
 
 PROPERTY = "C05"
 LEVEL = "exploration"
@@ -104,6 +104,17 @@ def run(ctx):
             for bx in BOXES if (th or N <= 3) else (BOXES[(ctx.seed + len(par)) % 4], "B2"):
                 for lim in (1, 20, 200) if th or N <= 3 else (1, 60):
                     tasks.append(dict(N=N, box=bx, kind=kind, par=par, limit=lim))
+    # the lattice of boxes with decimal end points (all 36 pairs lo < hi; for N = 2 also two different intervals
+    # on the two axes): where the minimum sits on a face the local phase works right at the bound
+    for N in (1, 2) if not th else (1, 2, 3):
+        objs = [o for o in lattice(N, th) if o[0] != "quad" or all(v in (-1.0, 0.5, 2.0) for v in o[1])]
+        boxes = list(LATTICE_BOXES)
+        if N >= 2:
+            boxes += [f"M:{a}:{b}:{c}:{d}" for (a, b), (c, d) in zip(zip(ENDS, ENDS[1:]), zip(ENDS[2:], ENDS[4:]))]
+        for kind, par in objs:
+            for bx in boxes:
+                for lim in ((60, 200) if th else (200,)):
+                    tasks.append(dict(N=N, box=bx, kind=kind, par=par, limit=lim))
     out = pmap(case, tasks, chunksize=8)
     local_evals = 0
     boundary = 0
@@ -119,7 +130,7 @@ def run(ctx):
         rule="one pair of executions (refineSolution off / on) per (N, box, objective of the lattice, itersLimit); every "
              "Calculate argument logged; non-trivial = objectives whose unconstrained minimum lies on the boundary or "
              "outside the box",
-        exhaustive=True, configurations=len(tasks), local_phase_evaluations=local_evals,
+        exhaustive=True, configurations=len(tasks), boxes=sorted({t["box"] for t in tasks}), local_phase_evaluations=local_evals,
         states=len(tasks), transitions=2 * len(tasks), traces_validated_against_impl=2 * len(tasks),
         samples=tasks[:2] + tasks[-1:],
     )
